@@ -32,6 +32,7 @@ def run(ctx):
         "span arithmetic itself is not decided.")
     ctx.trusted = ["rustc nightly MIR"]
     quote_span(ctx, lexpr)
+    column_unit(ctx, lexpr)
     r = ctx.rule("R-LOOKAHEAD-POS", "IoRead::position accounts for the pending lookahead byte; SliceRead::peek does not advance")
     pos = lexpr.fn(IO + "position")
     peek = lexpr.fn(IO + "peek")
@@ -220,3 +221,59 @@ def quote_span(ctx, lexpr):
         r.ok("Datum::quotation stores the given span as SpanInfo::Prim for the head", q)
     else:
         r.violation(q.path, "head-span-not-from-parameter", "Datum::quotation does not use the shorthand's span for the head", q.loc())
+
+
+def column_unit(ctx, lexpr):
+    """Stream positions come from LineColIterator (one step per byte pulled), slice/str positions from
+    SliceRead::position_of_index (a recount of the bytes before the index).  "The same spans from str, slice and
+    stream" needs both to treat the same bytes specially (the line feed) and to advance the column for every
+    other byte."""
+    r = ctx.rule("R-COLUMN-UNIT", "the stream's and the slice's line/column counters treat the same bytes specially "
+                                  "(only LF) and advance for every other byte value")
+    it = lexpr.fn("<parse::iter::LineColIterator<I> as std::iter::Iterator>::next")
+    sl = lexpr.fn("parse::read::SliceRead::<'a>::position_of_index")
+    if it is None or sl is None:
+        r.anchor_missing("LineColIterator::next / SliceRead::position_of_index")
+        return
+    eff = {}
+    for b in range(256):
+        def hook(S, fn, bb, t, args, path, b=b):
+            if "std::iter::Iterator::next" in F.callee_names(t):
+                return ("value", Adt(OPT, 1, [Adt(RES, 0, [b])]))
+            return None
+
+        S = sim.Sim([lexpr], hooks={"call": hook})
+        outs = set()
+        for p in S.run(it):
+            if p.end != "return":
+                continue
+            outs.add(frozenset(e[1].path[-1] for e in p.events if e[0] == "store" and isinstance(e[1], Opq) and e[1].path))
+        eff[b] = frozenset(outs)
+    base = eff[0x41]
+    special_stream = {b for b in range(256) if eff[b] != base}
+    if not base or not any(base):
+        r.violation(it.path, "no-advance", "LineColIterator::next does not update its counters for an ordinary byte", it.loc())
+        return
+    # slice side: byte values the recount switches on
+    special_slice = set()
+    n_sw = 0
+    for b in sl.blocks:
+        t = b["term"]
+        if t["k"] == "switch" and t.get("ty") == "u8" and not b.get("cleanup"):
+            n_sw += 1
+            special_slice |= {v for v, _ in t["targets"]}
+    if n_sw == 0:
+        r.anchor_missing("byte dispatch in SliceRead::position_of_index")
+        return
+    if special_stream == special_slice:
+        r.ok("both counters special-case exactly %s and advance the column for each of the other %d byte values"
+             % (sorted("0x%02X" % b for b in special_stream), 256 - len(special_stream)), it)
+    else:
+        only_s = sorted(special_stream - special_slice)
+        only_l = sorted(special_slice - special_stream)
+        r.violation(it.path, "column-unit",
+                    "the stream's line/column counter treats %d byte value(s) differently from an ordinary byte that the "
+                    "slice recount does not (%s) and vice versa (%s): the same text gets different columns from a stream "
+                    "and from a str/slice" % (len(only_s), ", ".join("0x%02X" % b for b in only_s[:6]),
+                                              ", ".join("0x%02X" % b for b in only_l[:6]) or "none"), it.loc())
+    r.floor("byte-values", 256)
